@@ -18,7 +18,7 @@ CHECKS = {
  "C07": ("property-based testing (Hypothesis): overlapping scenes, gjk -> epa protocol, vs exact qhull penetration depth (polytope pairs) and certified bounds (smooth pairs); both simplex windings",
          "generated-input search with an exact oracle for polytopes; two open known findings (GJK hands over an incomplete simplex; default face capacity)"),
  "C08": ("property-based testing (Hypothesis): overlapping scenes, mpr_penetration vs exact qhull penetration depth (polytopes) / ball-witness bounds, translation test, contact membership",
-         "generated-input search with lower-bound witnesses for every reported violation; four open known findings on the contact position"),
+         "generated-input search with lower-bound witnesses for every reported violation; three open known findings on the contact position"),
  "C09": ("property-based testing (Hypothesis) + coverage-guided fuzzing (atheris, thorough tier): C01 scenes vs original GJK (points, consistency, optimality) and Nesterov variants (value); iteration helpers on fresh objects",
          "generated-input search against construction witnesses / certified reference GJK; one open known finding for use_nesterov_acceleration=True (iteration limit)"),
  "C10": ("property-based testing (Hypothesis) + coverage-guided fuzzing of the line/box case tree (atheris, thorough tier): all 34 functions x placement families; closed-form point-to-primitive residuals and consistency",
